@@ -94,7 +94,12 @@ where
     let mut graphu = convert_graph(graph, weighted, &node_map);
     let partition = map_node_names_to_hashsets(&graphu);
     let mut modularity = partitions::modularity(&graphu, &partition, weighted, resolution).unwrap();
-    let m = graphu.size(weighted);
+    // (weights are summed in a canonical order throughout, so that the result does not depend on
+    // the iteration order of the hash maps, which differs from call to call)
+    let m = match weighted {
+        true => get_edges_in_canonical_order(&graphu).iter().map(|e| e.2).sum(),
+        false => graphu.size(false),
+    };
     let (mut partition, mut inner_partition, _improvement) =
         compute_one_level(&graphu, m, &partition, resolution.unwrap_or(1.0), seed);
     let mut improvement = true;
@@ -339,11 +344,20 @@ fn get_degree_information(
     let mut degrees: HashMap<usize, f64> = HashMap::new();
     let mut stot: Vec<f64> = vec![];
 
+    // the weights have been set to 1.0 by `convert_graph` when the caller asked for an unweighted
+    // run, so the weighted degrees can be used in both cases; they are summed over the edges in a
+    // canonical order
+    let edges = get_edges_in_canonical_order(graph);
+    let zeroes = || -> HashMap<usize, f64> {
+        graph.get_all_nodes().iter().map(|n| (n.name, 0.0)).collect()
+    };
     if graph.specs.directed {
-        // the `get_weighted_*` methods can be used here, whether or not the original graph
-        // was weighted because `set_all_edge_weights` has been called in `louvain_partitions`
-        in_degrees = graph.get_weighted_in_degree_for_all_nodes().unwrap();
-        out_degrees = graph.get_weighted_out_degree_for_all_nodes().unwrap();
+        in_degrees = zeroes();
+        out_degrees = zeroes();
+        for (u, v, weight) in &edges {
+            *out_degrees.get_mut(u).unwrap() += weight;
+            *in_degrees.get_mut(v).unwrap() += weight;
+        }
         stot_in = (0..partition.len())
             .into_iter()
             .map(|i| *in_degrees.get(&i).unwrap())
@@ -353,7 +367,12 @@ fn get_degree_information(
             .map(|i| *out_degrees.get(&i).unwrap())
             .collect();
     } else {
-        degrees = graph.get_weighted_degree_for_all_nodes();
+        degrees = zeroes();
+        for (u, v, weight) in &edges {
+            // (a self-loop counts twice, as in `get_weighted_degree_for_all_nodes`)
+            *degrees.get_mut(u).unwrap() += weight;
+            *degrees.get_mut(v).unwrap() += weight;
+        }
         stot = (0..partition.len())
             .into_iter()
             .map(|i| *degrees.get(&i).unwrap())
@@ -449,9 +468,9 @@ where
         }
         new_graph.add_node(Node::from_name_and_attributes(i, nodes));
     });
-    graph.get_all_edges().iter().for_each(|e| {
-        let com1 = node2com.get(&e.u).unwrap();
-        let com2 = node2com.get(&e.v).unwrap();
+    get_edges_in_canonical_order(graph).iter().for_each(|(u, v, weight)| {
+        let com1 = node2com.get(u).unwrap();
+        let com2 = node2com.get(v).unwrap();
         let new_graph_edge_weight = new_graph
             .get_edge(*com1, *com2)
             .unwrap_or(&Edge::with_weight(*com1, *com2, 0.0))
@@ -460,11 +479,27 @@ where
             .add_edge(Edge::with_weight(
                 *com1,
                 *com2,
-                e.weight + new_graph_edge_weight,
+                weight + new_graph_edge_weight,
             ))
             .expect("unexpected failure to add edge");
     });
     new_graph
+}
+
+/// The edges of a graph as (u, v, weight), sorted by their end points: sums taken over this
+/// list do not depend on the iteration order of the graph's hash maps.
+fn get_edges_in_canonical_order<T, A>(graph: &Graph<T, A>) -> Vec<(T, T, f64)>
+where
+    T: Hash + Eq + Clone + Ord + Display + Send + Sync,
+    A: Clone + Send + Sync,
+{
+    let mut edges: Vec<(T, T, f64)> = graph
+        .get_all_edges()
+        .iter()
+        .map(|e| (e.u.clone(), e.v.clone(), e.weight))
+        .collect();
+    edges.sort_by(|a, b| (&a.0, &a.1).cmp(&(&b.0, &b.1)).then(a.2.total_cmp(&b.2)));
+    edges
 }
 
 /// For a given node `u` returns all the weights of the edges to its neighbors.
@@ -480,8 +515,9 @@ where
 {
     let hm: HashMap<usize, f64> = HashMap::new();
     let empty_hs = HashSet::new();
-    let hs = nbrs.get(u).unwrap_or(&empty_hs);
-    hs.iter().fold(hm, |mut acc: HashMap<usize, f64>, v: &T| {
+    // the neighbours in ascending order, so that the weights are always added in the same order
+    let hs = nbrs.get(u).unwrap_or(&empty_hs).iter().sorted();
+    hs.fold(hm, |mut acc: HashMap<usize, f64>, v: &T| {
         if u == v {
             return acc;
         }
@@ -505,7 +541,7 @@ fn add_predecessor_weights<T, A>(
     A: Clone + Send + Sync,
 {
     if let Some(hs) = preds.get(u) {
-        for v in hs {
+        for v in hs.iter().sorted() {
             if u == v {
                 continue;
             }
